@@ -126,8 +126,8 @@ def buildable (i : Input) : Bool :=
    | .reach f nh attrs es =>
        famOk f && famNegotiated i f &&
        (match nh with
-        | none => false
-        | some n => nhOk n &&
+        | none => isFlowspec f          -- only flowspec carries no next hop (RFC 8955 §4)
+        | some n => !isFlowspec f && nhOk n &&
             -- legacy IPv4 encoding can only carry an IPv4 next hop; RFC 2545: IPv6 NLRI need an IPv6 next hop
             (if f == Fam.ipv4 && !extNhNegotiated i then (match n with | .v4 _ => true | _ => false)
              else if f.afi == 2 then (match n with | .v4 _ => false | _ => true) else true)) &&
@@ -315,11 +315,18 @@ def kindName : Msg → String
   | .open .. => "open" | .reach .. => "reach" | .unreach .. => "unreach" | .eor _ => "eor"
   | .notif .. => "notification" | .keepalive => "keepalive" | .rr _ => "route-refresh"
 
+/-- theorem-backed families (`class=model`) vs impl-only exploration families (`class=explore`) -/
 def famName : Msg → String
-  | .reach f .. => s!" fam={f.afi}/{f.safi}"
-  | .unreach f _ => s!" fam={f.afi}/{f.safi}"
-  | .eor f => s!" fam={f.afi}/{f.safi}"
+  | .reach f .. | .unreach f _ | .eor f => if (isIpFam f).isSome then " class=model" else " class=explore"
   | _ => ""
+
+/-- does an UPDATE frame carry any NLRI bytes (withdrawn, legacy NLRI or an MP attribute region)? -/
+def frameHasNlri (fr : Bytes) : Bool :=
+  match updateSections (fr.drop 19) with
+  | some sec =>
+      !sec.withdrawn.isEmpty || !sec.nlri.isEmpty ||
+      ((tlvs sec.attrs).1.any (fun r => (r.code = 14 ∨ r.code = 15) && !(mpRegion r).isEmpty))
+  | none => true
 
 /-- expected region bytes of the opaque-family entries -/
 def opaqueRegion (addpath : Bool) (es : List Entry) : Option Bytes :=
@@ -327,18 +334,75 @@ def opaqueRegion (addpath : Bool) (es : List Entry) : Option Bytes :=
     some (es.flatMap (fun e => (if addpath then be32 e.pid else []) ++ (match e.nlri with | .opq (some b) _ => b | _ => [])))
   else none
 
-/-- the clause that fails, if any -/
-def checkClause (i : Input) (o : Obs) : Option String :=
-  if !buildable i then none
-  else match o with
+/-! ### can the message be encoded at all? (wire sizes from RFC 4271 §4.3, RFC 4760, RFC 6793, RFC 5492) -/
+
+/-- size of an attribute TLV with a value of `n` bytes -/
+def tlvSize (flags n : Nat) : Nat := (if n > 255 ∨ flags / 16 % 2 = 1 then 4 else 3) + n
+
+/-- wire size of one input attribute towards a peer with / without 4-octet AS support -/
+def attrWireSize (two : Bool) (a : Attr) : Nat :=
+  let n := (wireValue a).length
+  if two ∧ a.code = 2 then
+    match parseSegs 4 (wireValue a) with
+    | some segs =>
+        let small := segs.foldl (fun acc s => acc + 2 + 2 * s.2.length) 0
+        let wide := segs.any (fun s => s.2.any (· > 65535))
+        let as4 := (segs.filter (fun s => s.1 ≠ 3 ∧ s.1 ≠ 4)).foldl (fun acc s => acc + 2 + 4 * s.2.length) 0
+        tlvSize 0 small + (if wide then tlvSize 0 as4 else 0)
+    | none => tlvSize a.flags n
+  else if two ∧ a.code = 7 then
+    tlvSize 0 6 + (if beNat ((wireValue a).take 4) > 65535 then tlvSize 0 8 else 0)
+  else tlvSize a.flags n
+
+def entryWireSize (addpath : Bool) (e : Entry) : Nat :=
+  (if addpath then 4 else 0) +
+  (match e.nlri with
+   | .ip _ _ mask => 1 + ceil8 mask
+   | .opq (some b) _ => b.length
+   | .opq none _ => 0)
+
+def capWireSize : Cap → Nat
+  | .mp _ => 6 | .rr => 2 | .em => 2 | .err => 2 | .as4 _ => 6
+  | .enh l => 2 + 6 * l.length
+  | .gr _ _ l => 4 + 4 * l.length
+  | .ap l => 2 + 4 * l.length
+  | .llgr l => 2 + 7 * l.length
+  | .fqdn h d => 4 + h.length + d.length
+  | .unk _ b => 2 + b.length
+
+/-- The smallest conceivable first frame (header, attribute block, section overhead with the shortest
+    next-hop form, first entry) fits the negotiated maximum; for OPEN the capability parameter fits its
+    one-octet lengths; for NOTIFICATION the data fits. -/
+def encodable (i : Input) : Bool :=
+  match i.msg with
+  | .open _ _ _ caps => caps.isEmpty || (caps.map capWireSize).sum + 2 ≤ 255
+  | .notif _ _ d => 21 + d.length ≤ maxFrame i
+  | .reach f nh attrs es =>
+      let two := !as4Both i.loc i.rem
+      let attrsLen := (attrs.map (attrWireSize two)).sum
+      let first := match es with | [] => 0 | e :: _ => entryWireSize (addPathTx i f) e
+      let legacy := f == Fam.ipv4 && !extNhNegotiated i
+      let nhLen := match nh with
+        | some (.v4 _) => 4 | some (.v6 _) => 16 | some (.v6ll ..) => 32 | none => 0
+      let over := if legacy then (if es.isEmpty then 0 else 7) else 4 + 3 + 1 + nhLen + 1
+      23 + attrsLen + over + first ≤ maxFrame i
+  | _ => true
+
+/-- the clause that fails, if any (before the `encodable` classification) -/
+def checkClause0 (i : Input) (o : Obs) : Option String :=
+  match o with
   | .panic => some "panic"
+  | .err => some "encode-error"
   | .obs n stream dec fp =>
     let (frames, rest) := splitFrames stream
     if !rest.isEmpty then some "stream-not-delimitable"
     else if frames.length ≠ n then some "frame-count-differs"
     else if frames.isEmpty then some "no-frame"
     else if !frames.all markerOk then some "bad-marker"
-    else if frames.any (fun fr => fr.length > maxFrame i) then some "frame-exceeds-max"
+    else if frames.any (fun fr => fr.length > maxFrame i) then
+      -- an oversize frame that carries no NLRI at all: the attribute block alone does not fit
+      if expectedType i.msg = 2 ∧ frames.any (fun fr => fr.length > maxFrame i && !frameHasNlri fr)
+      then some "frame-exceeds-max-no-nlri" else some "frame-exceeds-max"
     else if frames.any (fun fr => beNat ((fr.drop 18).take 1) ≠ expectedType i.msg) then some "wrong-message-type"
     else match firstSome frames frameLengths with
     | some s => some s
@@ -354,7 +418,9 @@ def checkClause (i : Input) (o : Obs) : Option String :=
                  | some sec => ((tlvs sec.attrs).1.filter (fun r => r.code = 14 ∨ r.code = 15)).flatMap mpRegion
                  | none => [])
                if got == want then none
-               else if got.length < want.length then some "entries-dropped" else some "nlri-bytes-differ"
+               else if got.length < want.length then
+                 (if frames.any (fun fr => !frameHasNlri fr) then some "entries-dropped-at-empty-frame" else some "entries-dropped")
+               else some "nlri-bytes-differ"
            | none => none)
       | _ => none
     match opq with
@@ -380,7 +446,10 @@ def checkClause (i : Input) (o : Obs) : Option String :=
         | .reach f nh attrs es => checkUpdate i f true nh attrs es ps
         | .unreach f es => checkUpdate i f false none [] es ps
       match content with
-      | some s => some s
+      | some s =>
+          -- entries went missing and one frame carries no NLRI: the "zero entries fit" exit of the chunk loop
+          if s == "entries-dropped" && frames.any (fun fr => !frameHasNlri fr) then some "entries-dropped-at-empty-frame"
+          else some s
       | none =>
         match fp with
         | .t => none
@@ -388,14 +457,31 @@ def checkClause (i : Input) (o : Obs) : Option String :=
         | .f => some "fixed-point-differs"
         | .panic => some "fixed-point-panic"
 
+/-- the clause that fails, if any -/
+def checkClause (i : Input) (o : Obs) : Option String :=
+  if !buildable i then none
+  else if encodable i then checkClause0 i o
+  else
+    -- no encoder can satisfy the property on this input: the only acceptable outcome is a refusal
+    match o with
+    | .err => none
+    | _ => (checkClause0 i o).map (fun _ => "unencodable-input-accepted")
+
 def check (i : Input) (o : Obs) : Verdict :=
   match checkClause i o with
   | none => .ok
   | some s => .fail s
 
+/-- clauses whose classification depends on the address family (frame size / entry bookkeeping) -/
+def famClause (c : String) : Bool :=
+  c == "panic" || c == "frame-exceeds-max" || (c.startsWith "entries-" && c != "entries-dropped-at-empty-frame") ||
+  c == "nlri-bytes-differ" ||
+  c == "path-ids-differ" || c.startsWith "peer-decode-" || c == "stream-not-delimitable" ||
+  c == "update-lengths-inconsistent" || c == "mp-lengths-inconsistent" || c == "frame-count-differs"
+
 /-- the line printed by the oracle -/
 def verdictStr (i : Input) : Verdict → String
   | .ok => "ok"
-  | .fail c => s!"fail kind={kindName i.msg}{famName i.msg} clause={c}"
+  | .fail c => s!"fail kind={kindName i.msg}{if famClause c then famName i.msg else ""} clause={c}"
 
 end Rbgp.Enc.Spec
